@@ -11,7 +11,8 @@ print("| property | mechanism key | what fails (recorded, not repaired) |\n|---|
 for e in sorted([e for e in kf if e["status"] == "known"], key=lambda e: (e["property"], e["key"])):
     print("| %s | `%s` | %s |" % (e["property"], e["key"], e["what"].replace("|", "\\|")))
 print()
-print("| seeded change | breaks | needs to manifest | detected by (quick tier) |\n|---|---|---|---|")
+print("| seeded change | breaks | needs to manifest | at seeding time | now (tools/seed_recheck.py) |\n|---|---|---|---|---|")
 for d in sorted(glob.glob(os.path.join(H, "seeded", "*"))):
     m = json.load(open(os.path.join(d, "meta.json")))
-    print("| `%s` | %s | %s | %s |" % (os.path.basename(d), ",".join(m["breaks_property"]), m["needs_to_manifest"].replace("|", "\\|"), m["detected_by"].replace("|", "\\|")))
+    now = "; ".join("%s %s: %s" % (k, v["verdict"], ", ".join(v["keys"][:3])) for k, v in m.get("detected_now", {}).items()) or "-"
+    print("| `%s` | %s | %s | %s | %s |" % (os.path.basename(d), ",".join(m["breaks_property"]), m["needs_to_manifest"].replace("|", "\\|"), m["detected_by"].replace("|", "\\|"), now.replace("|", "\\|")))
